@@ -4,6 +4,8 @@
 
 Opts g_opts = { NULL, "quick", 1, 0, 1, NULL, NULL, "", 2 };
 Counters g_cnt;
+int g_prelude_used = 0;
+int g_prelude_opt = -1;    /* --prelude; -1: the harness derives it from the shard number (prelude.c) */
 
 void parse_opts(int argc, char **argv)
 {
@@ -23,6 +25,7 @@ void parse_opts(int argc, char **argv)
         else if (!strcmp(argv[i], "--label") && i + 1 < argc) g_opts.label = argv[++i];
         else if (!strcmp(argv[i], "--maxbe") && i + 1 < argc) g_opts.maxbe = atoi(argv[++i]);
         else if (!strcmp(argv[i], "--paint") && i + 1 < argc) g_paint = atoi(argv[++i]);
+        else if (!strcmp(argv[i], "--prelude") && i + 1 < argc) g_prelude_opt = atoi(argv[++i]);
         else { fprintf(stderr, "unknown option %s\n", argv[i]); exit(EXIT_ENGINE); }
     }
 }
@@ -283,6 +286,7 @@ int finish(void)
         fprintf(f, "{\"sig\":"); json_str(f, viols[i].sig);
         fprintf(f, ",\"case\":"); json_str(f, viols[i].casedesc);
         fprintf(f, ",\"detail\":"); json_str(f, viols[i].detail);
+        fprintf(f, ",\"prelude\":%d", g_prelude_used);
         fputc('}', f);
     }
     fprintf(f, "]}\n");
